@@ -45,6 +45,11 @@ _PURE_METHODS = {
 }
 
 
+import os as _os
+import posixpath as _pp
+
+# pure string functions of the standard library, by the dotted name the analysed code uses (posix semantics, as on the systems cutadapt runs on)
+_PURE_DOTTED = {"os.fspath": _os.fspath, "os.path.splitext": _pp.splitext, "os.path.basename": _pp.basename, "os.path.dirname": _pp.dirname, "os.path.split": _pp.split}
 _SAFE_CALLABLES = (operator.eq, operator.and_, operator.or_, operator.ne)  # pure functions that may be passed in through env
 
 
@@ -177,6 +182,10 @@ def _fold(n, env):
                 r = list(r)
             return r
         if isinstance(n.func, ast.Attribute):
+            dotted = _chain(n.func)
+            if dotted in _PURE_DOTTED and dotted.split(".")[0] not in env:
+                r = _PURE_DOTTED[dotted](*[_fold(a, env) for a in n.args])
+                return list(r) if isinstance(r, tuple) else r
             recv = _fold(n.func.value, env)
             for t, names in _PURE_METHODS.items():
                 if isinstance(recv, t) and n.func.attr in names:
